@@ -128,7 +128,7 @@ func checkC06(c *Ctx) {
 	preds := resultPredicates(p)
 	c.Floor("C06.R1", "result_predicates", len(preds), 2)
 	for _, fn := range preds {
-		sets, und := acceptSets(fn)
+		sets, und := acceptSets(p.View(fn))
 		key := FuncName(fn) + ":accept-set"
 		if len(und) > 0 {
 			c.Undecided("C06.R1", key, p.Pos(fn.Pos()), strings.Join(und, "; "))
@@ -152,12 +152,40 @@ func checkC06(c *Ctx) {
 	}
 
 	// R2: the classification function = the one calling Deliverer.Deliver and both predicates
+	// (helpers of the package are part of the function, except the two predicates and the backoff function — a
+	// function of the retry configuration returning a duration —, which the table refers to by role)
+	keep := func(callee *ssa.Function) bool {
+		if callee == succFn || callee == retryFn {
+			return true
+		}
+		rs := callee.Signature.Results()
+		if rs.Len() == 1 && namedName(rs.At(0).Type()) == "Duration" {
+			ps := callee.Signature.Params()
+			for i := 0; i < ps.Len(); i++ {
+				if namedName(ps.At(i).Type()) == "RetryConfig" {
+					return true
+				}
+			}
+		}
+		return false
+	}
 	var classify *ssa.Function
+	size := func(f *ssa.Function) int {
+		n := 0
+		for _, b := range f.Blocks {
+			n += len(b.Instrs)
+		}
+		return n
+	}
 	for _, fn := range p.FuncsInPkg("dispatcher") {
-		hasDeliver := len(allCalls(fn, func(ci ssa.CallInstruction) bool { return isInvokeOf(ci, dispPath, "Deliverer", "Deliver") })) > 0
-		hasS := len(allCalls(fn, func(ci ssa.CallInstruction) bool { return ci.Common().StaticCallee() == succFn })) > 0
-		if hasDeliver && hasS {
-			classify = fn
+		if fn.Parent() != nil {
+			continue
+		}
+		v := p.ViewKeeping(fn, keep)
+		hasDeliver := len(allCalls(v, func(ci ssa.CallInstruction) bool { return isInvokeOf(ci, dispPath, "Deliverer", "Deliver") })) > 0
+		hasS := len(allCalls(v, func(ci ssa.CallInstruction) bool { return ci.Common().StaticCallee() == succFn })) > 0
+		if hasDeliver && hasS && (classify == nil || size(v) < size(classify)) {
+			classify = v
 		}
 	}
 	if classify == nil {
@@ -189,6 +217,44 @@ func structFieldStores(a *ssa.Alloc) map[string]ssa.Value {
 		}
 	}
 	return out
+}
+
+// structFieldStoresOnPath: the value each field of the local struct cell holds at the end of the path — the last
+// store along the path's blocks, also through a whole-struct store of another cell's value.
+func structFieldStoresOnPath(a *ssa.Alloc, blocks []*ssa.BasicBlock) map[string]ssa.Value {
+	out := map[string]ssa.Value{}
+	for _, b := range blocks {
+		for _, ins := range b.Instrs {
+			st, ok := ins.(*ssa.Store)
+			if !ok {
+				continue
+			}
+			if fa, ok := st.Addr.(*ssa.FieldAddr); ok && fa.X == ssa.Value(a) {
+				_, f, _ := fieldAddrName(fa)
+				out[f] = st.Val
+			}
+			if st.Addr == ssa.Value(a) {
+				// *a = *b : take b's fields as they are at this point of the path
+				if u, ok := st.Val.(*ssa.UnOp); ok {
+					if src, ok := u.X.(*ssa.Alloc); ok && src != a {
+						for f, v := range structFieldStoresOnPath(src, blocksUpTo(blocks, b)) {
+							out[f] = v
+						}
+					}
+				}
+			}
+		}
+	}
+	return out
+}
+
+func blocksUpTo(blocks []*ssa.BasicBlock, last *ssa.BasicBlock) []*ssa.BasicBlock {
+	for i, b := range blocks {
+		if b == last {
+			return blocks[:i+1]
+		}
+	}
+	return blocks
 }
 
 func resolvePhi(v ssa.Value, phis map[*ssa.Phi]ssa.Value) ssa.Value {
@@ -271,7 +337,7 @@ func checkDecisionTable(c *Ctx, rule string, fn, succFn, retryFn *ssa.Function) 
 			rv := pa.Ret.Results[0]
 			if u, ok := rv.(*ssa.UnOp); ok {
 				if a, ok := u.X.(*ssa.Alloc); ok {
-					fields = structFieldStores(a)
+					fields = structFieldStoresOnPath(a, pa.Blocks)
 				}
 			}
 		}
@@ -297,12 +363,27 @@ func checkDecisionTable(c *Ctx, rule string, fn, succFn, retryFn *ssa.Function) 
 								outcome, _ = constString(st.Val)
 							}
 							if f == "DeadReason" {
-								reasonRecorded, _ = constString(resolvePhi(st.Val, pa.PhiPred))
+								rv := st.Val
+								// the reason read back from the action being built
+								if u, ok := rv.(*ssa.UnOp); ok && u.Op == token.MUL {
+									if fa2, ok := u.X.(*ssa.FieldAddr); ok {
+										if a2, ok := fa2.X.(*ssa.Alloc); ok {
+											_, f2, _ := fieldAddrName(fa2)
+											if v2 := structFieldStoresOnPath(a2, blocksUpTo(pa.Blocks, b))[f2]; v2 != nil {
+												rv = v2
+											}
+										}
+									}
+								}
+								reasonRecorded, _ = constString(resolvePhi(rv, pa.PhiPred))
 							}
 						}
 					}
 				}
 				if ci, ok := ins.(ssa.CallInstruction); ok {
+					if isInvokeOf(ci, queuePath, "Store", "RecordAttempt") {
+						recorded = true
+					}
 					if f := ci.Common().StaticCallee(); f != nil && p.FuncReaches(f, func(x ssa.CallInstruction) bool { return isInvokeOf(x, queuePath, "Store", "RecordAttempt") }, map[*ssa.Function]bool{}) {
 						recorded = true
 					}
